@@ -5,5 +5,5 @@ Require Import ExtrOcamlBasic.
 Extraction Language OCaml.
 Extraction "../build/ocaml/c11_model.ml"
   crc32 load append enc_rec enc_snapshot mstep r_get r_exists r_keys r_size r_ttl
-  compact_step1 compact_step2 compact_step3 drop_expired jstep_op read_log
+  compact_step1 compact_step2 compact_step3 drop_expired jstep_op jflush_steps read_log
   fresh_state sys_step init_sys srun.
